@@ -134,6 +134,33 @@ def schema_object(d, sub, kwfun=keyword_strategies, max_kw=5):
             for pk, ps in o["properties"].items():
                 if isinstance(ps, dict) and "required" not in ps and draw(st.integers(0, 9)) < 4:
                     ps["required"] = draw(st.booleans())
+        # group-coherent branches: an in-place applicator (same instance, other schema object) gets a branch made
+        # of keywords of the SAME family as its parent, so that sibling keywords of two schema objects meet on
+        # one instance (state leaking from one object's keywords into the other's shows only there)
+        inplace = [k for k in ("allOf", "anyOf", "oneOf", "extends", "not", "if", "then", "else", "dependencies")
+                   if k in o]
+        fam = [g for g in ("object", "array", "number", "string") if any(k in o for k in groups.get(g, []))]
+        if inplace and fam and draw(st.integers(0, 9)) < 5:
+            g = draw(st.sampled_from(fam))
+            k = draw(st.sampled_from(inplace))
+            gk = draw(st.lists(st.sampled_from(groups[g]), min_size=1, max_size=3, unique=True))
+            branch = {}
+            for name in gk:
+                branch[name] = draw(kws[name])
+            if d <= 4:
+                for ex, base in (("exclusiveMinimum", "minimum"), ("exclusiveMaximum", "maximum")):
+                    if ex in branch and base not in branch:
+                        branch[base] = draw(kws[base])
+            bks = draw(st.permutations(list(branch)))
+            branch = dict((n, branch[n]) for n in bks)
+            v = o[k]
+            if isinstance(v, list) and v and all(isinstance(e, (dict, bool)) for e in v):
+                v[draw(st.integers(0, len(v) - 1))] = branch
+            elif isinstance(v, dict) and k == "dependencies":
+                if v:
+                    v[draw(st.sampled_from(sorted(v)))] = branch
+            elif isinstance(v, (dict, bool)) and k != "dependencies":
+                o[k] = branch
         ks = draw(st.permutations(list(o)))
         return dict((k, o[k]) for k in ks)
 
